@@ -156,7 +156,9 @@ def reference(ms, opts, syntax, explicit_list):
     return tuple(res)
 
 
-HOSTS_REPEAT = ('%s*2', '(%s+y)*2', 'p>%s*3')
+# ... and after a sibling that carries the other form of the same attribute names (single / doubled class shorthand, a valued /
+# boolean attribute): what is worked out for one element's attributes must not stick to the next element
+HOSTS_REPEAT = ('%s*2', '(%s+y)*2', 'p>%s*3', 'q.k[a=1 d.]+%s', 'q..k[a. d=1]+%s')
 # the mentions written on a snippet alias whose definition has two top-level elements: both receive the same attribute list
 HOST_ALIAS = 'ALIAS'
 ALIAS_SNIPPETS = {'al': 'x+x'}
@@ -182,7 +184,7 @@ def check_merge(ms, share, opts, syntax, explicit_list, host=None):
         ev = lex_html(out)
         if host:
             copies = [e[2] for e in ev if e[0] == 'o' and e[1] == 'x']
-            want = 3 if host.endswith('*3') else 2
+            want = 3 if host.endswith('*3') else (1 if host.startswith('q') else 2)
             if len(copies) != want:
                 return s, ('attrs:repeated-host-copies', dict(abbr=s, output=out[:200]))
         else:
